@@ -78,6 +78,11 @@ def cells(ctx: Ctx, deeper: bool) -> List[Dict[str, Any]]:
                              ("cond_on_elem", "a + (x if x > 2 else 0)"), ("running_max", "a if a > x else x"), ("cond_int_arms_then_float", "(a if a > 0 else 0) + x / 4")):
                 C.append({"id": f"Agg:{sk}:{seedk}:{bk}", "expr": f"{se}.Aggregate({seed}, lambda a, x: {body})", "family": "agg", "kinds": (sk, seedk), "op": "Aggregate",
                           "floating_ok": " if " in body})
+    # negated comparisons as FILTERS (a filter is a statement of its own in the generated code, not an expression)
+    for k, (op, neg) in enumerate([(">", "<="), ("<", ">="), (">=", "<"), ("<=", ">"), ("==", "!="), ("!=", "==")]):
+        C.append({"id": f"where_not:{op}", "expr": f"j.tracks().Where(lambda t: not (t.pt() {op} 10.0)).Count()", "family": "agg", "kinds": ("isel",), "op": "Count"})
+        C.append({"id": f"where_not_and:{op}", "expr": f"j.tracks().Where(lambda t: not (t.pt() {op} j.pt()) and not (t.eta() {op} 0.5)).Count()", "family": "agg", "kinds": ("isel",), "op": "Count"})
+    C.append({"id": "where_not:outer", "expr": "(1 if not (j.pt() > 30.0) else 0)", "family": "cond", "kinds": ("ilit", "ilit"), "op": "ifexp"})
     for a, b in itertools.product(KINDS, KINDS):
         C.append({"id": f"if:{a}:{b}", "expr": f"({pick(a)} if j.pt() > 30.0 else {pick(b)})", "family": "cond", "kinds": (a, b), "op": "ifexp"})
     # conditionals whose arms hold partial operations (First / index): each arm is evaluated under its own test only
@@ -138,6 +143,21 @@ def run(ctx: Ctx) -> int:
             R = ctx.rng("ev", backend, es)
             evs = [evgen.gen_event(s, R, "dense") for _ in range(4)] + [evgen.gen_event(s, R, "mixed") for _ in range(3)]
             evs_nn = nonneg(evs)
+            # not-a-number values (a failed fit, 0/0 upstream): comparisons with them are false, `not (a > b)` is then TRUE
+            nan_ev = json.loads(json.dumps(evgen.gen_event(s, R, "dense")))
+            k = 0
+            for bnk in nan_ev["banks"]:
+                for o in bnk["objs"]:
+                    k += 1
+                    if k % 2 == 0 and isinstance(o.get("pt"), float):
+                        o["pt"] = float("nan")
+                    if k % 3 == 0 and isinstance(o.get("eta"), float):
+                        o["eta"] = float("nan")
+                    for t in o.get("tracks", []) or []:
+                        k += 1
+                        if k % 2 == 0:
+                            t["pt"] = float("nan")
+            evs = evs + [nan_ev]
             # batches: mod cells separately (non-negative events)
             by_family: Dict[bool, List[Dict[str, Any]]] = {True: [c for c in table if c["family"] == "mod"], False: [c for c in table if c["family"] != "mod"]}
             batches = []
@@ -216,6 +236,11 @@ def check_batch(ctx: Ctx, backend: str, case: diff.Case, r: Dict[str, Any], fail
             bad = f"Python result is int, column type is {branches[ci]['type']} (integer-valued results must remain integers)"
         elif "float" in ks and tc != "float":
             bad = f"Python result is float, column type is {branches[ci]['type']}"
+        # Python's floats are doubles: arithmetic with a double operand (a double method, a floating literal) must not be
+        # narrowed to the 24 bits of a float operand that happens to stand beside it
+        DOUBLE_KINDS = {"dmeth", "flit", "fwhole"}
+        if bad is None and cell["family"] in ("binop", "mod") and set(cell.get("kinds", ())) & DOUBLE_KINDS and branches[ci]["type"].replace("std::vector<", "").strip("> ") == "float":
+            bad = f"an operand is a double but the result column is booked as {branches[ci]['type']} (narrowed to single precision)"
         if bad:
             failures.append((backend, cell, "type", bad))
         else:
